@@ -130,7 +130,7 @@ def gen_content(ch, boundary, ctype, ctx):
     out = b''
     look = False
     for _ in range(n_tok):
-        k = ch.weighted([6, 3, 4, 2, 2, 1, 1, 2], 'tok')
+        k = ch.weighted([6, 3, 4, 2, 2, 1, 1, 2, 1], 'tok')
         if k == 0:
             out += ch.bytes_from(b'\r\n-a' + boundary[:1], 1, 'c_byte')
         elif k == 1:
@@ -148,6 +148,8 @@ def gen_content(ch, boundary, ctype, ctx):
             look = True
         elif k == 6:
             out += CRLF + CRLF
+        elif k == 8:
+            out += [b'\xe9', b'\xc3\xa9', b'\x00', b'\xff\xfe'][ch.draw(4, 'c_bin')]     # charset matters
         else:
             out += delim[:-1]                                       # one byte short of the delimiter
     out = out[:40]
@@ -336,8 +338,8 @@ def gen_workload(ctx):
         w.cuts = sorted(ch.draw(L + 1, 'cut') for _ in range(k))
     else:
         s = [1, 2, 3, 5, 7, 11][ch.draw(6, 'step')]
-        while L // s > 260:
-            s += 4
+        while L // s > 130:
+            s += 3
         w.cuts = list(range(s, L, s))
         if s == 1:
             ctx.probe('one_byte_events')
@@ -608,6 +610,40 @@ async def consume_async(part, pat, rec, cap):
         pieces.append(await s.read())
 
 
+class _SyncRes(object):
+    fn = None
+
+    def on_post(self, req, resp):
+        self.fn(req, resp)
+
+
+class _AsyncRes(object):
+    fn = None
+
+    async def on_post(self, req, resp):
+        await self.fn(req, resp)
+
+
+_APPS = {}
+
+
+def _get_app(kind, fn):
+    """The two applications are built once per process (building an App and
+    compiling its router costs more than a whole run); everything a run can
+    change -- the responder body and the three parse options -- is set anew
+    for every run."""
+    ent = _APPS.get(kind)
+    if ent is None:
+        if kind == 'wsgi':
+            app, res = falcon.App(), _SyncRes()
+        else:
+            app, res = falcon.asgi.App(), _AsyncRes()
+        app.add_route('/f', res)
+        ent = _APPS[kind] = (app, res)
+    ent[1].fn = fn
+    return ent[0]
+
+
 def set_options(app, w):
     po = app.req_options.media_handlers[falcon.MEDIA_MULTIPART].parse_options
     po.max_body_part_count = w.max_count
@@ -620,34 +656,32 @@ def run_wsgi(ctx, w, data, cl, truncated):
     pats = w.patterns
     cap = len(data) + 16
 
-    class Res(object):
-        def on_post(self, req, resp):
-            obs['invoked'] = True
-            recs = obs['records']
-            try:
-                form = req.get_media()
-                i = 0
-                for part in form:
-                    pat = pats[i] if i < len(pats) else ('full',)
-                    rec = _new_rec(i, pat)
-                    recs.append(rec)
-                    _hdr_fields(part, rec)
-                    try:
-                        consume_sync(part, pat, rec, cap)
-                        rec['done'] = True
-                    except Exception as ex:
-                        rec['exc'] = classify(ex)
-                    if w.abandon == i or i > 40:
-                        obs['terminal'] = ('abandoned',)
-                        break
-                    i += 1
-                else:
-                    obs['terminal'] = ('done',)
-            except Exception as ex:
-                obs['terminal'] = ('error', classify(ex))
+    def on_post(req, resp):
+        obs['invoked'] = True
+        recs = obs['records']
+        try:
+            form = req.get_media()
+            i = 0
+            for part in form:
+                pat = pats[i] if i < len(pats) else ('full',)
+                rec = _new_rec(i, pat)
+                recs.append(rec)
+                _hdr_fields(part, rec)
+                try:
+                    consume_sync(part, pat, rec, cap)
+                    rec['done'] = True
+                except Exception as ex:
+                    rec['exc'] = classify(ex)
+                if w.abandon == i or i > 40:
+                    obs['terminal'] = ('abandoned',)
+                    break
+                i += 1
+            else:
+                obs['terminal'] = ('done',)
+        except Exception as ex:
+            obs['terminal'] = ('error', classify(ex))
 
-    app = falcon.App()
-    app.add_route('/f', Res())
+    app = _get_app('wsgi', on_post)
     set_options(app, w)
     if w.short_reads:
         ctx.ch.enable_fault('wsgi_short_read', 1, 2)
@@ -705,34 +739,32 @@ def run_asgi(ctx, w, chunks, cl, disconnect):
         if w.omit_more:
             del events[-1]['more_body']
 
-    class Res(object):
-        async def on_post(self, req, resp):
-            obs['invoked'] = True
-            recs = obs['records']
-            try:
-                form = await req.get_media()
-                i = 0
-                async for part in form:
-                    pat = pats[i] if i < len(pats) else ('full',)
-                    rec = _new_rec(i, pat)
-                    recs.append(rec)
-                    _hdr_fields(part, rec)
-                    try:
-                        await consume_async(part, pat, rec, cap)
-                        rec['done'] = True
-                    except Exception as ex:
-                        rec['exc'] = classify(ex)
-                    if w.abandon == i or i > 40:
-                        obs['terminal'] = ('abandoned',)
-                        break
-                    i += 1
-                else:
-                    obs['terminal'] = ('done',)
-            except Exception as ex:
-                obs['terminal'] = ('error', classify(ex))
+    async def on_post(req, resp):
+        obs['invoked'] = True
+        recs = obs['records']
+        try:
+            form = await req.get_media()
+            i = 0
+            async for part in form:
+                pat = pats[i] if i < len(pats) else ('full',)
+                rec = _new_rec(i, pat)
+                recs.append(rec)
+                _hdr_fields(part, rec)
+                try:
+                    await consume_async(part, pat, rec, cap)
+                    rec['done'] = True
+                except Exception as ex:
+                    rec['exc'] = classify(ex)
+                if w.abandon == i or i > 40:
+                    obs['terminal'] = ('abandoned',)
+                    break
+                i += 1
+            else:
+                obs['terminal'] = ('done',)
+        except Exception as ex:
+            obs['terminal'] = ('error', classify(ex))
 
-    app = falcon.asgi.App()
-    app.add_route('/f', Res())
+    app = _get_app('asgi', on_post)
     set_options(app, w)
     env = _Env()
     loop = SimLoop(ch, env, max_steps=30000)
@@ -803,12 +835,12 @@ def check_hdr_fields(ctx, oracle, stack, rec, rp, fault, strict):
                         '[%s] part %d: reading .%s raised %s (expected %r); headers %r' % (
                             stack, rec['i'], f, v[2], want[f], _short(rp.headers_block, 200)),
                         stack=stack, field=f, exc=v[2], fault=fault, fn_mode=rp.fn_mode,
-                        ext_lang=rp.opts.get('ext_lang', ''))
+                        ext_lang_hyphen='-' in rp.opts.get('ext_lang', ''))
             return False
         if v != want[f]:
             ctx.violate(oracle, '[%s] part %d: .%s == %r, encoded %r; headers %r' % (
                 stack, rec['i'], f, v, want[f], _short(rp.headers_block, 200)),
-                stack=stack, field=f, fault=fault, fn_mode=rp.fn_mode, ext_lang=rp.opts.get('ext_lang', ''))
+                stack=stack, field=f, fault=fault, fn_mode=rp.fn_mode, ext_lang_hyphen='-' in rp.opts.get('ext_lang', ''))
             return False
     st, v = rec['secure_filename']
     sf = mc.secure_filename(rp.filename)
@@ -822,7 +854,7 @@ def check_hdr_fields(ctx, oracle, stack, rec, rp, fault, strict):
             orc = 'multipart.error_class'
         ctx.violate(orc, '[%s] part %d: .secure_filename -> %r, reference %r (filename %r)' % (
             stack, rec['i'], (st, v), sf, rp.filename), stack=stack, field='secure_filename', fault=fault,
-            fn_mode=rp.fn_mode, ext_lang=rp.opts.get('ext_lang', ''))
+            fn_mode=rp.fn_mode, ext_lang_hyphen='-' in rp.opts.get('ext_lang', ''))
         return False
     return True
 
@@ -1027,6 +1059,7 @@ def judge_agree(ctx, wo, ao, fault):
         return
     what = 'terminal'
     pat = None
+    scan = False
     detail = 'outcome wsgi %r vs asgi %r' % (wt, at)
     for i in range(max(len(wk), len(ak))):
         a = wk[i] if i < len(wk) else None
@@ -1035,10 +1068,13 @@ def judge_agree(ctx, wo, ao, fault):
             what = 'part'
             src = wo['records'][i] if i < len(wk) else ao['records'][i]
             pat = src['pat'][0]
+            if pat == 'until' and i < len(wo['records']):
+                # trigger of the known async-reader defect: a delimited scan that never meets its delimiter
+                scan = UNTIL_DELIMS[src['pat'][1]] not in b''.join(wo['records'][i]['pieces'])
             detail = 'part %d (%r): wsgi %s vs asgi %s' % (i, src['pat'], _short(a, 160), _short(b, 160))
             break
     ctx.violate('multipart.wsgi_asgi_agree', 'same bytes, different results: ' + detail,
-                what=what, pattern=pat, fault=fault)
+                what=what, pattern=pat, fault=fault, scan_to_end=scan)
 
 
 # ---------------------------------------------------------------------------
